@@ -40,6 +40,13 @@ def c18_1(ctx, ss):
     if len(rets) != 1:
         raise AnchorMissing("list_structure: expected one return")
     v = flow.expand(rets[0].value)
+    # the permutations are refused only for a structure naming a particle that is not among the final states
+    for rz in [n for n in pf.walk_no_nested(ff.node) if isinstance(n, ast.Raise)]:
+        conds = [(txt(flow.expand(e)), pol) for kind, e, pol in guards.path_conditions(ff.node, rz) if kind == "if"]
+        okz = conds in ([("set(list(iter_flatten(self.structure))) - set(final_states)", True)], [("set(list(iter_flatten(self.structure))) <= set(final_states)", False)],
+                        [("set(list(iter_flatten(self.structure))).issubset(final_states)", False)], [("set(list(iter_flatten(self.structure))).issubset(set(final_states))", False)])
+        (ctx.holds if okz else ctx.violation)("C18.1", k + " :: refusal", where(ff, rz), "refused only when the amplitude names a particle outside the final states" if okz
+                                              else f"list_structure refuses under {conds}: amplitudes over the event type's own particles are rejected (or foreign ones accepted)")
     ok_shape = isinstance(v, ast.ListComp) and len(v.generators) == 1
     if not ok_shape:
         ctx.violation("C18.1", k, where(ff, rets[0]), f"list_structure returns `{txt(v)[:100]}`: not a filtered product")
